@@ -6,6 +6,7 @@
    model (Reader.v, Blocks.v; the raw layer is in SrcTie3Raw.v) for EVERY stream, buffer size, state and fuel.
    An edit of a guard, of the order of two operations, of a state update or of a match arm in
    one of these functions changes the generated definition and a proof below stops compiling. *)
+From MLA Require Import Limit.
 From MLA Require Import Base Stream Blocks Reader.
 From MLAGen Require Src3d.
 From Coq Require Import ZifyBool ZifyNat ZifyN.
@@ -19,6 +20,7 @@ Proof.
 Qed.
 
 Section Tie.
+  Context {LIM : Limit}.
   Variable S : Stream.
   Variables FNMAX T_START T_CONTENT T_EOA T_EOF : N.
   (* the label of the index panic sites: the model has none (they are unreachable, which the
@@ -321,16 +323,23 @@ Section Tie.
   Proof. repeat split. Qed.
 
   (* ---------- ArchiveFooter::deserialize_from = Reader.read_footer ---------- *)
-  (* bincode over take(len): what Reader.read_footer does with the region (the byte layout is
-     Blocks.parse_footer_map; the limit is not a parameter of the model, see the report) *)
+  (* bincode over take(len) under with_limit(limit): what Reader.read_footer does with the region
+     (the byte layout is Blocks.parse_footer_map; every read is charged against the limit, so the
+     map is delivered iff it parses and the bytes consumed, len (ser_footer_map m), fit the limit) *)
   Definition bincode_model (limit l : N) (s : st S) : st S * res footer :=
     match read_full S (Datatypes.S (N.to_nat l)) s l with
-    | (s4, Ok b) => match parse_footer_map b with Some m => (s4, Ok m) | None => (s4, Err EDeser) end
+    | (s4, Ok b) =>
+      match parse_footer_map b with
+      | Some m => if limit <? len (ser_footer_map m) then (s4, Err EDeser) else (s4, Ok m)
+      | None => (s4, Err EDeser)
+      end
     | (s4, Err e) => (s4, Err e)
     | (s4, Crash c) => (s4, Crash c)
     end.
+  (* unconditional: the translated function IS the model's read_footer at the source's limit
+     (the model has the limit as a parameter since the fixlimits work package) *)
   Theorem footer_deserialize_order_src (s : st S) :
-    Src3d.footer_deserialize_from S bincode_model s = read_footer S s.
+    Src3d.footer_deserialize_from S bincode_model s = read_footer (LIM := Src3d.BINCODE_MAX_DESERIALIZE) S s.
   Proof.
     unfold Src3d.footer_deserialize_from, read_footer, bincode_model.
     destruct (sk S s (FromEnd (-4))) as [s1 [pos|e|x]]; [|reflexivity|reflexivity].
@@ -338,7 +347,8 @@ Section Tie.
     cbv zeta. destruct (pos <? le_val d); [reflexivity|].
     destruct (sk S s2 (FromStart (pos - le_val d))) as [s3 [p|e|x]]; [|reflexivity|reflexivity].
     destruct (read_full S (Datatypes.S (N.to_nat (le_val d))) s3 (le_val d)) as [s4 [b|e|x]]; [|reflexivity|reflexivity].
-    destruct (parse_footer_map b); reflexivity.
+    destruct (parse_footer_map b) as [m|]; [|reflexivity].
+    unfold lim. destruct (N.min (le_val d) Src3d.BINCODE_MAX_DESERIALIZE <? len (ser_footer_map m)); reflexivity.
   Qed.
   (* D15 / D12a on the source: whatever bincode is, it is consulted only with limit =
      min(len, BINCODE_MAX_DESERIALIZE) over take(len), and only after `pos < len` was refused *)
@@ -364,18 +374,21 @@ Section Tie.
 End Tie.
 
 (* ---------- ArchiveFooter::serialize_into: join, map, 4-byte length = Blocks.ser_footer ---------- *)
+(* no premise on the size: the three outcomes of the translated function are the three arms of
+   Writer.w_finalize_with after the EndOfArchiveData block (limit: nothing written; u32: the map
+   without its length; otherwise Blocks.ser_footer) *)
 Lemma footer_serialize_into_src (order : footer -> footer) dest files ids tmp :
   Src3d.footer_join files ids = Ok tmp ->
-  len (ser_footer_map (order tmp)) <= 536870912 ->
-  Src3d.footer_serialize_into ser_footer_map order dest files ids = (dest ++ ser_footer (order tmp), Ok tt).
+  Src3d.footer_serialize_into ser_footer_map order dest files ids =
+    if Src3d.BINCODE_MAX_DESERIALIZE <? len (ser_footer_map (order tmp)) then (dest, Err EDeser)
+    else if 2 ^ 32 <=? len (ser_footer_map (order tmp)) then (dest ++ ser_footer_map (order tmp), Err EDeser)
+    else (dest ++ ser_footer (order tmp), Ok tt).
 Proof.
-  intros Hj Hl. unfold Src3d.footer_serialize_into, ser_footer, le32. rewrite Hj. cbv zeta.
-  change Src3d.BINCODE_MAX_DESERIALIZE with 536870912.
-  destruct (N.ltb_spec 536870912 (len (ser_footer_map (order tmp)))) as [?|_]; [lia|].
+  intros Hj. unfold Src3d.footer_serialize_into, ser_footer, le32. rewrite Hj. cbv zeta.
+  destruct (Src3d.BINCODE_MAX_DESERIALIZE <? len (ser_footer_map (order tmp))); [reflexivity|].
   rewrite N.add_0_l.
-  destruct (N.leb_spec (2 ^ 32) (len (ser_footer_map (order tmp)))) as [H|_].
-  - change (2 ^ 32) with 4294967296 in H. lia.
-  - now rewrite <- app_assoc.
+  destruct (2 ^ 32 <=? len (ser_footer_map (order tmp))); [reflexivity|].
+  now rewrite <- app_assoc.
 Qed.
 (* a name whose id is unknown: WrongWriterState, nothing written *)
 Lemma footer_serialize_into_unknown_id (FI : Type) (ser : list (bytes * FI) -> bytes) order dest files ids e :
@@ -385,6 +398,7 @@ Proof. intros Hj. unfold Src3d.footer_serialize_into. now rewrite Hj. Qed.
 
 (* ---------- non-vacuity: a two-file archive over a cursor, read through the TRANSLATED code ---------- *)
 Section Example.
+  Context {LIM : Limit}.
   Let T_START := 0. Let T_CONTENT := 1. Let T_EOA := 254. Let T_EOF := 255.
   Let h0 := repeat 7 32.
   (* file 1 = "ab" ++ "" ++ "c" (with an EMPTY block), interleaved with file 2 *)
